@@ -1301,9 +1301,9 @@ theorem parseMisc_wsg (ws : Bytes) (hws : ∀ b ∈ ws, byteIsSpace T b = true)
 theorem parseProlog_wsg (ws : Bytes) (hws : ∀ b ∈ ws, byteIsSpace T b = true)
     (H : PosSh g ws.length txt (ws ++ txt))
     (hbom : Stream.startsWith ⟨0, txt⟩ Lit.bom = false)
-    (hdecl : Stream.startsWith ⟨0, txt⟩ Lit.xmlDecl = false)
+    (hdecl : Stream.startsWithXmlDecl T ⟨0, txt⟩ = false)
     (hbom' : Stream.startsWith ⟨0, ws ++ txt⟩ Lit.bom = false)
-    (hdecl' : Stream.startsWith ⟨0, ws ++ txt⟩ Lit.xmlDecl = false) :
+    (hdecl' : Stream.startsWithXmlDecl T ⟨0, ws ++ txt⟩ = false) :
     ESimT g ws.length (sh ws.length) (parseProlog T txt) (parseProlog T (ws ++ txt)) := by
   unfold parseProlog
   simp only [Stream.new, hbom, hdecl, hbom', hdecl', Bool.false_eq_true, ↓reduceIte, TM.lift_ok_bind]
@@ -1324,9 +1324,9 @@ theorem parseProlog_wsg (ws : Bytes) (hws : ∀ b ∈ ws, byteIsSpace T b = true
 theorem parseDocument_wsg (ws : Bytes) (hws : ∀ b ∈ ws, byteIsSpace T b = true)
     (H : PosSh g ws.length txt (ws ++ txt))
     (hbom : Stream.startsWith ⟨0, txt⟩ Lit.bom = false)
-    (hdecl : Stream.startsWith ⟨0, txt⟩ Lit.xmlDecl = false)
+    (hdecl : Stream.startsWithXmlDecl T ⟨0, txt⟩ = false)
     (hbom' : Stream.startsWith ⟨0, ws ++ txt⟩ Lit.bom = false)
-    (hdecl' : Stream.startsWith ⟨0, ws ++ txt⟩ Lit.xmlDecl = false) (allowDtd : Bool) :
+    (hdecl' : Stream.startsWithXmlDecl T ⟨0, ws ++ txt⟩ = false) (allowDtd : Bool) :
     ESimT g ws.length (fun u : Unit => u) (parseDocument T txt allowDtd)
       (parseDocument T (ws ++ txt) allowDtd) := by
   rw [parseDocument_eq, parseDocument_eq]
